@@ -223,6 +223,50 @@ def edge_scenario(args):
         s.close()
 
 
+def late_relay_scenario(args):
+    """gathering restarted by adding a relay server AFTER a gathering run has completed and been announced: the new TURN server
+    must be asked (Allocate), a second completion must be announced, and a granted allocation must show up as a relayed candidate"""
+    exe, seed, tier = args
+    import random
+    rng = random.Random(f"C20late/{seed}")
+    s = simlib.Sim(exe)
+    bad = []
+    try:
+        ncomp = rng.randint(1, 2)
+        script = rng.choice(["aa", "aa", "uaa", "d", "ae"])
+        s.op(f"net seed {seed}"); s.op("net latency 1 5")
+        s.op(f"server 127.0.0.60:3478 turn {script} user pass")
+        s.op("new A ctrl=1 compat=0 opts=0 rc=3 rto=500 addrs=127.0.0.1")
+        s.op(f"stream A {ncomp}"); s.op("attach A 1"); s.op("gather A 1")
+        s.op(f"run {rng.choice([100, 1000, 6000])}")
+        n0 = len([e for e in s.events() if " gathering-done " in e])
+        if n0 != 1:
+            bad.append(("never-done", f"first gathering run (no server): gathering-done announced {n0} times"))
+        mark = len(s.events())
+        for c in range(1, ncomp + 1):
+            s.op(f"relay A 1 {c} 127.0.0.60:3478 user pass 0")
+        s.op("run 8000")
+        ev = s.events()[mark:]
+        reqs = [e for e in ev if " server 127.0.0.60:3478 req " in e]
+        dones = [e for e in ev if " gathering-done " in e]
+        relayed = [e for e in ev if re.search(r" A new-candidate \d+ type=3 ", e)]
+        if not reqs:
+            bad.append(("server-not-asked", "a TURN server added after gathering had completed was never sent an Allocate request within 8 s"))
+        if len(dones) != 1:
+            bad.append(("never-done" if not dones else "done-twice",
+                        f"gathering restarted by nice_agent_set_relay_info: completion announced {len(dones)} times within 8 s (script `{script}`)"))
+        granted = [e for e in reqs if "behaviour=a authed=1" in e]
+        if granted and not relayed:
+            bad.append(("missing-candidate", "the TURN server granted an allocation after the late set_relay_info but no relayed candidate was announced"))
+        return dict(seed=seed, bad=bad, known=[], script=s.script, servers=[("turn", "127.0.0.60:3478", script)], ncands=1 + len(relayed),
+                    done_at=None, endless=None, glines=[])
+    except simlib.SimDied as e:
+        return dict(seed=seed, bad=[("crash", str(e)[-1500:])], known=[], script=s.script, servers=[], ncands=0, done_at=None,
+                    endless=None, glines=[])
+    finally:
+        s.close()
+
+
 def scenario(args):
     exe, seed, tier = args
     import random
@@ -361,6 +405,7 @@ def run(tier, seed):
             res = simlib.run_parallel(scenario, [(exe, ("directed", i), tier) for i in range(len(DIRECTED))] +
                                       [(exe, seed * 100000 + i, tier) for i in range(n)])
             res += simlib.run_parallel(edge_scenario, [(exe, seed * 100000 + i, tier) for i in range(8 if tier == "quick" else 60)])
+            res += simlib.run_parallel(late_relay_scenario, [(exe, seed * 100000 + i, tier) for i in range(10 if tier == "quick" else 80)])
             kinds, behs = {}, {}
             k3 = None
             for r in res:
